@@ -1836,3 +1836,126 @@ Lemma heads_range_restricted_thm : forall (g : graph) rs hs flt lo hi, wf g ->
 Proof.
   intros g rs hs flt lo hi W. split; [now apply hrf_restricted_ok|now apply rsel_unique].
 Qed.
+
+(** * the boolean evaluation of the restricted-range characterisation on an answer *)
+Section RselCheck.
+  Variable g : graph.
+  Hypothesis W : wf g.
+  Variables rs hs r : list nat.
+  Variable flt : nat -> bool.
+  Variables lo hi : nat.
+  Notation t := (ancsets g).
+  Hypothesis Rh : forall h, In h hs -> h < length g.
+
+  Lemma unw_b_spec x : unw_b t rs r x = true <-> unw g rs r x.
+  Proof.
+    unfold unw_b, unw, inR. rewrite orb_true_iff. fold (anc_any g rs x).
+    rewrite anc_any_spec, existsb_exists by assumption. split.
+    - intros [H|(f & Hf & E)]; [now left|right]. apply andb_true_iff in E. destruct E as [E1 E2].
+      apply negb_true_iff, Nat.eqb_neq in E1. apply (ancb_t_spec g W) in E2.
+      exists f. split; [assumption|]. split; [assumption|congruence].
+    - intros [H|(f & Hf & Ha & N)]; [now left|right]. exists f. split; [assumption|].
+      apply andb_true_iff. split; [apply negb_true_iff, Nat.eqb_neq; congruence|now apply (ancb_t_spec g W)].
+  Qed.
+
+  Notation step := (rreach_step g t rs r flt lo hi).
+  Notation RR := (rreach g rs hs flt lo hi r).
+
+  Lemma step_sub acc y x : In x acc -> In x (step acc y).
+  Proof. unfold rreach_step. destruct (_ && _ && _); [intros H; apply in_or_app; now right|trivial]. Qed.
+
+  Lemma fold_sub l : forall acc x, In x acc -> In x (fold_left step l acc).
+  Proof. induction l as [|y l IH]; intros acc x H; simpl; [assumption|]. apply IH. now apply step_sub. Qed.
+
+  Lemma step_new acc y x : In x (step acc y) -> In x acc \/ (In x (rpar g lo hi y) /\ In y acc /\
+                                                            ~ unw g rs r y /\ flt y = false).
+  Proof.
+    unfold rreach_step. destruct (memn y acc && negb (unw_b t rs r y) && negb (flt y)) eqn:E; [|now left].
+    intros H. apply in_app_or in H. destruct H as [H|H]; [|now left]. right.
+    rewrite !andb_true_iff, !negb_true_iff in E. destruct E as [[E1 E2] E3].
+    split; [exact H|]. split; [now apply memn_spec|]. split; [|assumption].
+    intros C. apply unw_b_spec in C. congruence.
+  Qed.
+
+  (** what a later part of the sweep adds lies strictly below the positions it processes *)
+  Lemma fold_stable l : forall acc z, (forall y, In y l -> y <= z) ->
+    (In z (fold_left step l acc) <-> In z acc).
+  Proof.
+    induction l as [|y l IH]; intros acc z B; simpl; [reflexivity|].
+    rewrite IH by (intros y' Hy'; apply B; now right). split; [|apply step_sub].
+    intros H. apply step_new in H. destruct H as [H|(H & _)]; [assumption|].
+    apply (rpar_lt g W lo hi) in H. specialize (B y (or_introl eq_refl)). lia.
+  Qed.
+
+  Lemma fold_sound l : forall acc, (forall x, In x acc -> RR x) ->
+    forall x, In x (fold_left step l acc) -> RR x.
+  Proof.
+    induction l as [|y l IH]; intros acc Ha x Hx; simpl in Hx; [now apply Ha|].
+    apply (IH (step acc y)); [|assumption]. intros z Hz. apply step_new in Hz.
+    destruct Hz as [Hz|(Hz & Hy & Uy & Fy)]; [now apply Ha|].
+    eapply rr_step; [apply Ha; eassumption|assumption|assumption|assumption].
+  Qed.
+
+  Lemma fold_closed l : sdesc l -> forall acc y, In y l ->
+    In y (fold_left step l acc) -> ~ unw g rs r y -> flt y = false ->
+    forall x, In x (rpar g lo hi y) -> In x (fold_left step l acc).
+  Proof.
+    induction l as [|y0 l IH]; intros SD acc y Hy Hin Uy Fy x Hx; [contradiction|].
+    destruct SD as [B SD]. simpl in *. destruct Hy as [<-|Hy].
+    - apply fold_sub. apply fold_stable in Hin; [|intros y' Hy'; apply B in Hy'; lia].
+      assert (Hacc : In y0 acc).
+      { apply step_new in Hin. destruct Hin as [H|(H & _)]; [assumption|].
+        apply (rpar_lt g W lo hi) in H. lia. }
+      unfold rreach_step. apply (proj2 (memn_spec y0 acc)) in Hacc. rewrite Hacc.
+      assert (unw_b t rs r y0 = false) as ->.
+      { destruct (unw_b t rs r y0) eqn:E; [|reflexivity]. apply unw_b_spec in E. contradiction. }
+      rewrite Fy. simpl. apply in_or_app. now left.
+    - now apply (IH SD (step acc y0) y).
+  Qed.
+
+  Lemma rreach_set_spec x : In x (rreach_set g t rs hs r flt lo hi) <-> RR x.
+  Proof.
+    unfold rreach_set. split.
+    - apply fold_sound. intros h Hh. now apply rr_head.
+    - induction 1 as [h Hh|y x Ry IH Uy Fy Hx]; [now apply fold_sub|].
+      apply (fold_closed (all_pos_desc g) (sdesc_all_pos g) hs y); try assumption.
+      apply all_pos_in. clear - Ry Rh W.
+      induction Ry as [h Hh|y x _ IH _ _ Hx]; [now apply Rh|].
+      apply (rpar_lt g W lo hi) in Hx. lia.
+  Qed.
+
+  Lemma rsel_ok_sound : rsel_ok g rs hs flt lo hi r = true ->
+    (forall h, In h hs -> h < length g) -> forall x, In x r <-> rsel g rs hs flt lo hi r x.
+  Proof.
+    unfold rsel_ok. rewrite !andb_true_iff, forallb_forall. intros [[H Rr] _] _ x.
+    pose proof (proj1 (in_range_spec g r) Rr) as Rr'. unfold rsel.
+    destruct (Nat.lt_ge_cases x (length g)) as [L|L].
+    - assert (Hx : In x (all_pos_desc g)) by now apply all_pos_in.
+      specialize (H x Hx). apply eqb_prop in H. rewrite <- memn_spec, H.
+      rewrite !andb_true_iff, negb_true_iff, memn_spec, rreach_set_spec.
+      assert (E : unw_b t rs r x = false <-> ~ unw g rs r x).
+      { rewrite <- Bool.not_true_iff_false, unw_b_spec. tauto. }
+      rewrite E. tauto.
+    - split.
+      + intros Hx. apply Rr' in Hx. lia.
+      + intros (R & _). exfalso. clear - R Rh W L.
+        assert (x < length g); [|lia].
+        induction R as [h Hh|y x _ IH _ _ Hx]; [now apply Rh|].
+        apply (rpar_lt g W lo hi) in Hx. lia.
+  Qed.
+End RselCheck.
+
+(** the checker's verdict on a HeadsRange answer with a restricted parent range *)
+Lemma heads_range_query_sound g rs hs lo hi fs r : wf g ->
+  (lo =? 0) && forallb (fun ps => length ps <=? hi) g = false ->
+  query_ok g (QHeadsRange rs hs lo hi fs r) = true ->
+  let rs' := dedup_adj (heap_from rs) in
+  let hs' := filter (fun h => negb (memn h rs')) (dedup_adj (heap_from hs)) in
+  forall x, In x r <->
+    rsel g rs' hs' (match fs with Some l => fun x => memn x l | None => fun _ => true end) lo hi r x.
+Proof.
+  intros W C H rs' hs'. cbn [query_ok] in H. rewrite C in H. fold rs' hs' in H.
+  pose proof H as H'. unfold rsel_ok in H'. rewrite !andb_true_iff in H'. destruct H' as [_ Rh].
+  pose proof (proj1 (in_range_spec g hs') Rh) as Rh'.
+  now apply (rsel_ok_sound g W rs' hs' r _ lo hi Rh').
+Qed.
